@@ -938,15 +938,14 @@ class Scene:
         if self._match_machup_pro:
             self._gamma *= (self._V_inf_and_rot/self._V_inf)**2
 
-        # Get velocities
-        if self._use_total_velocity or self._match_machup_pro:
-            self._calc_v_i()
-            self._V_i_2 = np.einsum('ij,ij->i', self._v_i, self._v_i)
-            self._V_i = np.sqrt(self._V_i_2)
-            self._u_i = self._v_i/self._V_i[:,np.newaxis]
-            if self._use_in_plane:
-                self._v_i_in_plane = np.matmul(self._P_in_plane, self._v_i[:,:,np.newaxis]).reshape((self._N,3))
-                self._V_i_in_plane_2 = np.einsum('ij,ij->i', self._v_i_in_plane, self._v_i_in_plane)
+        # Get velocities (the local velocities are needed for the vortex force and the Reynolds number whatever the redimensionalization option)
+        self._calc_v_i()
+        self._V_i_2 = np.einsum('ij,ij->i', self._v_i, self._v_i)
+        self._V_i = np.sqrt(self._V_i_2)
+        self._u_i = self._v_i/self._V_i[:,np.newaxis]
+        if self._use_in_plane:
+            self._v_i_in_plane = np.matmul(self._P_in_plane, self._v_i[:,:,np.newaxis]).reshape((self._N,3))
+            self._V_i_in_plane_2 = np.einsum('ij,ij->i', self._v_i_in_plane, self._v_i_in_plane)
 
         # Calculate vortex force differential elements
         self._dF_inv = (self._rho*self._gamma)[:,np.newaxis]*np.cross(self._v_i, self._dl)
